@@ -250,6 +250,12 @@ int main(int argc, char** argv) {
         for (size_t k = 1; k <= 3; k++) seeds.push_back(mk_seed("exact" + std::to_string(k), seeds::exact(k * W)));
         // the same data with a definite-length array of blocks (valid RFC 8618, other writers produce it): the reader counts blocks instead of waiting for the break
         for (const char* base : {"small", "mid"}) { Node root = parse_exact(std::string(base) == "small" ? seeds::small() : seeds::mid()); root.kids[2].indef = false; seeds.push_back(mk_seed(std::string(base) + "-definite", encode(root))); }
+        // an unknown (implementation-specific) member with a string value as the LAST member of every block map (and of the file preamble): a cut inside it
+        // is a cut inside the block; the value is skipped, not stored, so nothing downstream would notice a skip that stops early
+        for (int def = 0; def < 2; def++) for (size_t len : {(size_t)300, (size_t)70000}) for (int text = 0; text < 2; text++) { if (len == 70000 && (text || !T) && def) continue;
+            Node root = parse_exact(seeds::small()); root.kids[2].indef = !def; Node val = text ? mk_tstr(std::string(len, 'u')) : mk_bstr(std::string(len, '\x55'));
+            root.kids[1].kids.insert(root.kids[1].kids.end(), {mk_int(-10), val}); for (auto& blk : root.kids[2].kids) blk.kids.insert(blk.kids.end(), {mk_int(-10), val});
+            seeds.push_back(mk_seed(std::string("small-unknown-tail-") + (def ? "definite-" : "") + (text ? "t" : "b") + std::to_string(len), encode(root))); }
         // files whose first block end falls on / one before / one after a window boundary
         { std::string base = seeds::exact(W + 200, 2); RFile r = read_file(base); long d = (long)r.blocks[0].end - (long)W; for (int delta : {-1, 0, 1}) seeds.push_back(mk_seed("blockend" + std::to_string(delta), seeds::exact(W + 200 - d + delta, 2))); }
         for (auto& s : seeds) if (s.name.rfind("exact", 0) == 0 && s.bytes.size() % W != 0) { fprintf(stderr, "seed %s has size %zu\n", s.name.c_str(), s.bytes.size()); return done(2); }
@@ -423,6 +429,7 @@ int main(int argc, char** argv) {
         for (int k = 0; k < 5; k++) for (size_t d : {(size_t)10, (size_t)100, (size_t)1000, (size_t)10000, (size_t)100000, (size_t)(T ? 1000000 : 200000)}) tasks.push_back({6, (size_t)k, d, 0}); // raw bombs
         for (size_t k = 0; k <= 3; k++) tasks.push_back({7, 0, k, 0});                                             // k*65535-byte files ending inside a string
         for (size_t k = 0; k < 4; k++) tasks.push_back({8, 0, k, 0});                                              // length / count fields close to 2^64, 2^63, 2^32 in skipped and read positions
+        tasks.push_back({9, 0, 0, 0});                                                                              // every string of the small seed re-encoded as a chunked string whose first chunk declares a huge length
         static const unsigned char A64[] = {0x00, 0x01, 0x17, 0x18, 0x19, 0x1a, 0x1b, 0x1c, 0x1f, 0x20, 0x37, 0x38, 0x3b, 0x3f, 0x40, 0x41, 0x57, 0x58, 0x59, 0x5a, 0x5b, 0x5f, 0x60, 0x61, 0x78, 0x7b, 0x7f, 0x80, 0x81, 0x82, 0x98, 0x9b, 0x9f,
                                             0xa0, 0xa1, 0xb8, 0xbb, 0xbf, 0xc0, 0xc1, 0xd8, 0xdb, 0xdf, 0xe0, 0xf4, 0xf5, 0xf6, 0xf7, 0xf8, 0xf9, 0xfa, 0xfb, 0xfc, 0xff, 0x02, 0x03, 0x05, 0x0a, 0x2a, 0x43, 0x63, 0x83, 0xa2, 0xc2};
         static const uint64_t BV[] = {0, 1, 23, 24, 255, 256, 65535, 65536, 1ULL << 24, 1ULL << 27, 1ULL << 30, 0xffffffffULL, 0x100000000ULL, 0x7fffffffffffffffULL, 0x8000000000000000ULL, 0xffffffffffffffffULL};   // incl. mid-range lengths: an allocation sized by such a field exceeds the 64 MiB cap without needing 2^32
@@ -485,6 +492,14 @@ int main(int argc, char** argv) {
             case 5: for (unsigned char y : A64) for (unsigned char z : A64) { std::string s; s.push_back((char)A64[t.lo]); s.push_back((char)y); s.push_back((char)z); run_one("raw3", s, R); if (T) for (unsigned char w : {(unsigned char)0x00, (unsigned char)0xff, (unsigned char)0x41, (unsigned char)0x9f}) run_one("raw4", s + std::string(1, (char)w), R); } break;
             case 6: run_one("bomb" + std::to_string(t.seed) + "-d" + std::to_string(t.lo), bomb((int)t.seed, t.lo), R); break;
             case 7: { std::string f = seeds::exact((t.lo ? t.lo : 1) * W + 50); run_one("exactk" + std::to_string(t.lo), f.substr(0, t.lo * W), R); break; }
+            case 9: {
+                static const uint64_t CL[] = {1ULL << 27, 1ULL << 30, 1ULL << 32, 1ULL << 40, 1ULL << 62, ~0ULL};
+                Node root = parse_exact(b); std::vector<const Node*> strs; visit((const Node&)root, [&](const Node& n) { if ((n.major == 2 || n.major == 3) && !n.indef) strs.push_back(&n); });
+                for (size_t i = 0; i < strs.size(); i++) for (uint64_t L : CL) for (int ai : {26, 27}) { if (ai == 26 && L > 0xffffffffULL) continue; if (!T && i % 3 && L != (1ULL << 30)) continue;
+                    const Node& n = *strs[i]; std::string head; put_head(head, n.major, ai, L); std::string item = std::string(1, (char)((n.major << 5) | 31)) + head + n.bytes;   // no break: the input ends / continues with garbage inside the "chunk"
+                    run_one("chunklen-" + std::to_string(i) + "-L" + std::to_string(L) + "-ai" + std::to_string(ai), b.substr(0, n.begin) + item + b.substr(n.end), R);
+                    if (i == 0) { run_one("chunklen-raw-m" + std::to_string(n.major) + "-L" + std::to_string(L), item, R); run_one("chunklen-raw-in-array-L" + std::to_string(L), std::string("\x82\x00") + item, R); } }
+                break; }
             case 8: {
                 static const uint64_t LV[] = {~0ULL, ~0ULL - 1, ~0ULL - 7, ~0ULL - 8, ~0ULL - 9, ~0ULL - 15, ~0ULL - 16, ~0ULL - 65534, ~0ULL - 65535, ~0ULL - 0xffffffffULL, (1ULL << 63) + 1, 1ULL << 63, (1ULL << 63) - 1, 1ULL << 62, 1ULL << 48, 1ULL << 32, 1ULL << 31};
                 int major = 2 + (int)t.lo;   // byte string, text string, array, map
